@@ -20,9 +20,11 @@ VARIABLES
   target    \* state of the output file: "absent" | "old" | "new"
 clivars == <<sc, step, exit, out, target>>
 
+\* the default PDF path: <input>.pdf for one input file ("default"), report.pdf for several ("default2")
+DefaultOutputs == {"default", "default2"}
 Pipeline(s) ==
   CASE s.cmd = "report" -> <<"ReadFiles", "LoadRates", "Parse", "LoadConfig", "Calculate", "Format">>
-                             \o (IF s.format = "pdf" /\ s.output = "default" THEN <<"CheckExists">> ELSE <<>>) \o <<"Write">>
+                             \o (IF s.format = "pdf" /\ s.output \in DefaultOutputs THEN <<"CheckExists">> ELSE <<>>) \o <<"Write">>
     [] s.cmd = "parse" -> <<"ReadFiles", "Parse", "Write">>
     [] s.cmd = "convert" -> <<"ReadFiles", "Convert", "Write">>
 
@@ -64,7 +66,7 @@ FailureIsClean == exit = "fail" => out = "empty" /\ target = sc.target
 SuccessIsComplete == exit = "ok" => (IF sc.output = "stdout" THEN out = "report" ELSE target = "new")
 \* the default PDF path never replaces an existing file
 DefaultPdfNeverClobbers ==
-  (sc.cmd = "report" /\ sc.format = "pdf" /\ sc.output = "default" /\ sc.target = "old") => target = "old" /\ exit # "ok"
+  (sc.cmd = "report" /\ sc.format = "pdf" /\ sc.output \in DefaultOutputs /\ sc.target = "old") => target = "old" /\ exit # "ok"
 \* output appears only at the very last step
 NothingBeforeTheEnd == [][(out' # out \/ target' # target) => exit' = "ok"]_clivars
 =============================================================================
